@@ -673,7 +673,7 @@ def run_children(inputs, max_workers=16, timeout=180):
                     [sys.executable, '-W', 'ignore', '-m',
                      'vf.drivers._rt_child', fin, fout],
                     stdout=subprocess.DEVNULL, stderr=err, timeout=timeout,
-                    env=os.environ.copy())
+                    env=dict(os.environ, **(inputs[i].get('env') or {})))
         except subprocess.TimeoutExpired:
             return {'error': 'child timed out after %ss' % timeout,
                     'results': []}
